@@ -149,6 +149,42 @@ def run(tier):
         if a:
             raise ToolError("binding self-test failed: duplicated value accepted")
         v.add(binding_selftest="record with a duplicated value rejected")
+    # ---- end-to-end: timestamps as the (mock) server sees them — explicit ones unchanged, generated ones increasing
+    g = tlc("MC_TimestampE2E", "MC_TimestampE2E.cfg", workers=2, timeout=300)
+    if not g.ok() or not g.finished:
+        raise ToolError("MC_TimestampE2E failed: %s" % g.out[-400:])
+    scripts = g.json_prints("SCRIPT")
+    if len(scripts) < 100:
+        raise ToolError("too few e2e scripts")
+    for i, sc in enumerate(scripts):
+        sc["id"] = i
+    ein, eout = os.path.join(wd, "e2e.in.ndjson"), os.path.join(wd, "e2e.out.ndjson")
+    write_ndjson(ein, scripts)
+    run_harness("vh-driver", ["c18", "e2e", ein, eout], timeout=1800)
+    erows = read_ndjson(eout)
+    if len(erows) != len(scripts):
+        raise ToolError("c18 e2e: %d of %d" % (len(erows), len(scripts)))
+
+    def split(ts):
+        return [ts >> 30, ts & ((1 << 30) - 1)]
+    for x in erows:
+        for st in x["steps"]:
+            st["want"] = split(st["step"]["ts"])
+            for f in st["frames"]:
+                f["has_ts"] = 0 if f["ts"] == "none" else 1
+                f["ts"] = [0, 0] if f["ts"] == "none" else split(f["ts"])
+    ej = os.path.join(wd, "e2e.j.ndjson")
+    write_ndjson(ej, erows)
+    acc, rr, rej = validate_trace("Trace_TimestampE2E", "Trace_TimestampE2E.cfg", ej, timeout=900)
+    if not acc:
+        raise ToolError("Trace_TimestampE2E did not consume its input (line %s)" % rej)
+    import re as _re
+    for b in sorted({int(m.group(1)) - 1 for m in _re.finditer(r'<<"BAD", (\d+)>>', rr.out)})[:8]:
+        x = erows[b]
+        v.violation("timestamps seen by the node for %s: %s" % (
+            [(s["step"]["op"], "explicit %d" % s["step"]["ts"] if s["step"]["explicit"] else "generated", "evicted" if s["step"]["evict"] else "") for s in x["steps"]],
+            [[(f["opcode"], f["ts"][0] * (1 << 30) + f["ts"][1] if f["has_ts"] else None) for f in s["frames"]] for s in x["steps"]]), [x])
+    v.add(e2e_scripts=len(erows), e2e_frames=sum(len(s["frames"]) for x in erows for s in x["steps"]))
     v.add(drift=drift, exhaustive=True)
     v.assumptions += ["sequentially consistent interleavings at hook granularity (the code uses SeqCst atomics)",
                       "clock readings are scripted per thread through the cfg(scylla_verif) clock override; everything else in compute_next is the real code",
